@@ -335,7 +335,10 @@ func c06Eval(p c06Path, steps []c06Step, rootVal interface{}) c06Res {
 			cur.isNil = true
 		}
 	}
-	for _, k := range p.steps {
+	for i, k := range p.steps {
+		if i > 0 && steps[p.steps[i-1]].kind == 's' {
+			return c06Res{st: rj.MUnspec} // the grammar has no postfix operators after a slice expression
+		}
 		cur = c06Apply(cur, steps[k])
 	}
 	return cur
